@@ -15,6 +15,9 @@ func main() {
 		os.Exit(2)
 	}
 	fam := os.Args[1]
+	if fam == "deepdel" { // child process of the iter family's depth probe
+		os.Exit(deepDelProbe())
+	}
 	fs := flag.NewFlagSet(fam, flag.ExitOnError)
 	seed := fs.Uint64("seed", 1, "seed")
 	n := fs.Int("n", 10, "number of cases")
